@@ -6,7 +6,7 @@ from .. import filters_direct
 
 def direct(ctx, results):
     r = filters_direct.run_direct(ctx, ctx.n(900, 40000), "C09-direct")
-    return {"violations": [v for v in r["violations"] if v["key"].startswith("C09")], "disagreements": r["disagreements"], "evaluations": r["evaluations"],
+    return {"violations": [v for v in r["violations"] if v["key"].startswith("C09")], "disagreements": r["disagreements"], "evaluations": r["evaluations"], "validated": r["validated"],
             "distinct_nontrivial": r["far_cases"], "samples": r["samples"][:1],
             "notes": {"direct_filter_calls": r["evaluations"], "far_enough_calls_compared_with_model": r["far_cases"]}}
 
